@@ -914,35 +914,45 @@ fn gen_single(r: &mut Rng) -> String {
     let head = format!("1,{},{},{},{},{},{}", if learner { "l" } else { "f" }, boot_term, vf, lli, llt, members_str(peers));
     let mut t: u64 = if boot_term == "-" { 1 } else { boot_term.parse().unwrap() };
     let mut ops = vec![];
-    let n = r.range(3, 14);
+    let mut up = true;
+    let n = r.range(3, 16);
     for _ in 0..n {
+        if !up && r.chance(4, 5) {
+            ops.push("restart,0".to_string());
+            up = true;
+            continue;
+        }
         let k = r.below(100);
-        let op = if k < 30 {
+        let op = if k < 28 {
             let b0 = r.below(2);
             let rt = around(r, t + b0);
             t = t.max(rt);
             format!("vr,0,{},{},{},{}", rt, r.range(2, 3), around(r, lli), around(r, llt))
-        } else if k < 42 {
+        } else if k < 40 {
             let b0 = r.below(2);
             let at = around(r, t + b0);
             t = t.max(at);
             format!("ae,0,{},{}", at, r.range(2, 3))
-        } else if k < 67 {
-            let m = r.below(peers.len() as u64 + 1);
-            let rs: Vec<String> = (0..m).map(|_| gen_resp(r, t + 1, lli, llt)).collect();
+        } else if k < 70 {
+            // timers: often enough granted replies to win
+            let m = if r.chance(1, 2) { peers.len() as u64 - 1 } else { r.below(peers.len() as u64 + 1) };
+            let win = r.chance(1, 2);
+            let rs: Vec<String> = (0..m).map(|_| if win { "g".to_string() } else { gen_resp(r, t + 1, lli, llt) }).collect();
             t += 1;
-            format!("to,0,{}", if r.chance(1, 15) { "X".to_string() } else if rs.is_empty() { "-".to_string() } else { rs.join("+") })
-        } else if k < 73 {
+            format!("to,0,{}", if r.chance(1, 20) { "X".to_string() } else if rs.is_empty() { "-".to_string() } else { rs.join("+") })
+        } else if k < 76 {
             "sd,0".into()
-        } else if k < 77 {
+        } else if k < 80 {
             let h = t + r.below(3);
             t = t.max(h);
             format!("ht,0,{}", h)
-        } else if k < 83 {
+        } else if k < 86 {
             "nc,0".into()
-        } else if k < 88 {
+        } else if k < 91 {
+            up = false;
             "stop,0".into()
-        } else if k < 93 {
+        } else if k < 96 {
+            up = false;
             "crash,0".into()
         } else if k < 98 {
             "restart,0".into()
@@ -974,31 +984,49 @@ fn gen_cluster(r: &mut Rng, crashy: bool) -> String {
         }
         ops.push(format!("cc,0,bp.{}.a", (2..=n).map(|x| x.to_string()).collect::<Vec<_>>().join("+")));
     }
-    let steps = r.range(4, 16);
+    let mut up = vec![true; n as usize];
+    let steps = r.range(5, 18);
     for _ in 0..steps {
         let i = r.below(n);
+        if !up[i as usize] {
+            if r.chance(3, 4) {
+                ops.push(format!("restart,{}", i));
+                up[i as usize] = true;
+            }
+            continue;
+        }
         let k = r.below(100);
-        let op = if k < 45 {
-            // timer: responders = random subset of the other nodes, really delivered
+        let op = if k < 50 {
+            // a full election round: follower -> candidate, then the tick with real deliveries to a random subset
             let mut rs = vec![];
             for j in 0..n {
                 if j != i && r.chance(2, 3) {
                     rs.push(format!("r{}", j));
                 }
             }
-            format!("to,{},{}", i, if rs.is_empty() { "-".to_string() } else { rs.join("+") })
-        } else if k < 60 {
+            let spec = if rs.is_empty() { "-".to_string() } else { rs.join("+") };
+            if r.chance(2, 3) {
+                ops.push(format!("to,{},-", i));
+            }
+            format!("to,{},{}", i, spec)
+        } else if k < 64 {
             format!("hb,{},{}", r.below(n), i)
-        } else if k < 68 {
+        } else if k < 72 {
             format!("sd,{}", i)
-        } else if k < 73 {
+        } else if k < 77 {
             format!("nc,{}", i)
-        } else if k < 80 {
+        } else if k < 83 {
             format!("vr,{},{},{},0,0", i, r.range(1, 4), r.range(1, n))
-        } else if k < 86 {
+        } else if k < 90 {
+            up[i as usize] = false;
             format!("stop,{}", i)
-        } else if k < 92 {
-            if crashy { format!("crash,{}", i) } else { format!("stop,{}", i) }
+        } else if k < 97 {
+            if crashy {
+                up[i as usize] = false;
+                format!("crash,{}", i)
+            } else {
+                format!("hb,{},{}", r.below(n), i)
+            }
         } else {
             format!("restart,{}", i)
         };
